@@ -381,10 +381,7 @@ def compileEvoAD (cfg : Cfg) (L : Labware) (l : Nat) (isAsp : Bool) (a : EvoADAr
     (label : Option String) (comps : Option (List (Option Comp))) : List Micro :=
   if cfg.dev ≠ .evo then [.fail .reject]
   else
-    let vols : Arr Rat := match a.volume with
-      | .list vs => .vec vs
-      | .scalar v => .scalar v
-      | .other => .vec []
+    let vols : Arr Rat := a.volume.toArr
     (if isAsp then compileRemove L l a.wells vols label else compileAdd L l a.wells vols label comps)
     ++ commentMicros label
     ++ exceptMicros (evoAD isAsp a L.geom.nRowIds L.geom.cols cfg.maxVolume) fun f =>
